@@ -42,6 +42,7 @@ def plan(tier, seed):
     for s in range(shards):
         specs.append({'kind': 'gen', 'docs': ndocs // shards + 1, 'gshard': s})
     specs.append({'kind': 'corpus'})
+    specs.append({'kind': 'laxwrap', 'docs': 150 if tier == 'quick' else 1500})
     return specs
 
 
@@ -235,7 +236,96 @@ def run_corpus(spec, res):
         check_paths(res, schema, resource, errs, case['corpus'], case)
 
 
+# Declared elements below *undeclared* wrappers that a lax wildcard admits: the wrapper is assessed laxly (as xs:anyType), so
+# every descendant that has a global declaration is validated, and a fault there is reported there.
+LAXWRAP_XSD = """<xs:schema xmlns:xs="http://www.w3.org/2001/XMLSchema">
+<xs:element name="root"><xs:complexType><xs:sequence><xs:element name="head" type="xs:string"/>
+ <xs:any processContents="lax" minOccurs="0" maxOccurs="unbounded"/></xs:sequence></xs:complexType></xs:element>
+<xs:element name="qty" type="xs:int"/><xs:element name="flag" type="xs:boolean"/>
+<xs:element name="rec"><xs:complexType><xs:sequence><xs:element ref="qty" maxOccurs="unbounded"/></xs:sequence>
+ <xs:attribute name="id" type="xs:int" use="required"/></xs:complexType></xs:element>
+</xs:schema>"""
+
+
+def laxwrap_tree(rng, depth=0):
+    """[tag, attrs, text, children]; wrappers 'ext' / 'box' have no declaration."""
+    r = rng.random()
+    if depth < 3 and r < 0.45:
+        return [rng.choice(('ext', 'box')), {}, None, [laxwrap_tree(rng, depth + 1) for _ in range(rng.randint(1, 3))]]
+    if r < 0.65:
+        return ['qty', {}, str(rng.randint(0, 99)), []]
+    if r < 0.8:
+        return ['flag', {}, rng.choice(('true', 'false', '0', '1')), []]
+    return ['rec', {'id': str(rng.randint(1, 9))}, None, [['qty', {}, str(rng.randint(0, 99)), []] for _ in range(rng.randint(1, 2))]]
+
+
+def laxwrap_render(n):
+    attrs = ''.join(f' {k}="{v}"' for k, v in n[1].items())
+    return f'<{n[0]}{attrs}>{n[2] or ""}{"".join(laxwrap_render(c) for c in n[3])}</{n[0]}>'
+
+
+def run_laxwrap(spec, res):
+    import copy
+    xmlschema = env.activate_repo()
+    rng = env.rng_for(PROPERTY, spec['tier'], spec['seed'], 'laxwrap')
+    for version, cls in (('1.0', xmlschema.XMLSchema10), ('1.1', xmlschema.XMLSchema11)):
+        schema = cls(LAXWRAP_XSD)
+        for d in range(spec['docs']):
+            root = ['root', {}, None, [['head', {}, 'h', []]] + [laxwrap_tree(rng) for _ in range(rng.randint(1, 3))]]
+            text = laxwrap_render(root)
+            case = {'family': 'laxwrap', 'version': version, 'doc': text}
+            if not schema.is_valid(text):
+                res.violation('laxwrap:undamaged-document-rejected', case, text[:300])
+                continue
+            declared = []        # (path, node, wrappers above)
+
+            def walk(n, path, wrapped):
+                for i, c in enumerate(n[3]):
+                    if c[0] in ('qty', 'flag', 'rec'):
+                        declared.append((path + (i,), wrapped))
+                    walk(c, path + (i,), wrapped + (c[0] in ('ext', 'box')))
+            walk(root, (), 0)
+            if not declared:
+                continue
+            dpath, wrapped = rng.choice(declared)
+            damaged = copy.deepcopy(root)
+            node = damaged
+            for i in dpath:
+                node = node[3][i]
+            if node[0] == 'rec':
+                kind = rng.choice(('bad_attribute', 'missing_attribute'))
+                if kind == 'bad_attribute':
+                    node[1]['id'] = 'x'
+                else:
+                    del node[1]['id']
+            else:
+                kind = 'bad_value'
+                node[2] = 'two'
+            text = laxwrap_render(damaged)
+            case = {'family': 'laxwrap', 'version': version, 'doc': text, 'fault': kind, 'path': list(dpath)}
+            label = f'laxwrap {kind} at {"/".join(map(str, dpath))} under {wrapped} undeclared wrappers'
+            res.evaluations += 1
+            res.case(env.h8(('laxwrap', kind, len(dpath), wrapped)))
+            res.count(f'laxwrap:fault:{kind}:wrappers={min(wrapped, 2)}')
+            resource = xmlschema.XMLResource(text)
+            errs = list(schema.iter_errors(resource))
+            if not errs or schema.is_valid(text):
+                res.violation(f'fault-not-reported:laxwrap:{kind}:{"under-undeclared-wrapper" if wrapped else "direct"}', case, label)
+                continue
+            check_paths(res, schema, resource, errs, label, case)
+            idx = index_paths(resource.root)
+            located = [idx[id(e.elem)] for e in errs if e.elem is not None and id(e.elem) in idx]
+            if not any(p in (tuple(dpath), tuple(dpath[:-1])) for p in located):
+                res.violation('no-error-at-damaged-node:laxwrap:' + kind, case, label + ' errors at ' + str(located))
+            elif any(not (tuple(dpath[:len(p)]) == p or p[:len(dpath)] == tuple(dpath)) for p in located):
+                res.violation('error-outside-damaged-chain:laxwrap:' + kind, case, label + ' errors at ' + str(located))
+            else:
+                res.count('laxwrap:localised')
+
+
 def run_shard(spec, res):
+    if spec['kind'] == 'laxwrap':
+        return run_laxwrap(spec, res)
     if spec['kind'] == 'gen':
         run_gen(spec, res)
     else:
@@ -249,6 +339,8 @@ def finalize(res, tier):
         reasons.append('fewer than 100 error paths evaluated')
     if c.get('faults:localised', 0) < 100:
         reasons.append('fewer than 100 faults localised')
+    if not c.get('laxwrap:localised'):
+        reasons.append('no fault under a lax wildcard localised')
     for k in D.FAULT_KINDS:
         if not c.get('fault:' + k):
             reasons.append(f'fault kind {k} never injected')
@@ -268,7 +360,7 @@ def replay(case):
                 check_paths(res, schema, resource, list(schema.iter_errors(resource)), case['corpus'], case)
     else:
         cls = xmlschema.XMLSchema10 if case['version'] == '1.0' else xmlschema.XMLSchema11
-        schema = cls(D.family_xsd(case['family'], case['version']))
+        schema = cls(LAXWRAP_XSD if case['family'] == 'laxwrap' else D.family_xsd(case['family'], case['version']))
         resource = xmlschema.XMLResource(case['doc'])
         errs = list(schema.iter_errors(resource))
         print(case['doc'])
